@@ -246,6 +246,22 @@ func (v *Verifier) invoke(st *State, in *ssa.Call, recv *Term, m *types.Func, ar
 	if c := v.P.Contracts[key]; c != nil {
 		return v.applyContract(st, in, c, nil, cc.Signature(), append([]*Term{recv}, args...))
 	}
+	if _, named := recvT.(*types.Named); !named {
+		// an unnamed interface type (interface{ Value() string }): the contract of the one named interface
+		// under contract that has this very method is used; values reaching it are assumed to implement that interface
+		var found *Contract
+		n := 0
+		for k, c := range v.P.Contracts {
+			if c.IsIface && strings.HasPrefix(k, "iface:") && strings.HasSuffix(k, "."+m.Name()) {
+				found = c
+				n++
+			}
+		}
+		if n == 1 {
+			v.assumeNote(fmt.Sprintf("call of %s on an unnamed interface type uses the contract %s", m.Name(), found.Key))
+			return v.applyContract(st, in, found, nil, cc.Signature(), append([]*Term{recv}, args...))
+		}
+	}
 	if m.Name() == "Error" && m.Pkg() == nil {
 		st.env[in] = Fresh("errstr", SString)
 		return true
